@@ -21,7 +21,8 @@ RULE = ("A case is 2..3 scenario programs (constructor arguments incl. default-c
         "are executed in fresh interpreters under PYTHONHASHSEED 0, 1 and random, solo and interleaved, and the "
         "sha256 digests of the canonical traces (floats as hex) must agree with each other and with the in-process "
         "run. hashseed: programs with str arms only and tie-prone warm starts (1-2 features from {-1,1,2}), solo, in three "
-        "interpreters. Contexts on a small grid with duplicated columns make equal-gain tree splits (where random_state "
+        "interpreters, one program in four with n_jobs=2 on a process-based backend (loky / multiprocessing: workers with "
+        "their own hash salt; LSH with 54..64 hyperplanes). Contexts on a small grid with duplicated columns make equal-gain tree splits (where random_state "
         "decides) frequent. Non-trivial: two bandits alive at once with different seeds and a training or randomised "
         "step of one executed after the construction of the other.")
 ASSUMPTIONS = [
